@@ -1,6 +1,7 @@
 """STIX 2.1 Relationship Objects."""
 
 from collections import OrderedDict
+import re
 
 from ..properties import (
     BooleanProperty, ExtensionsProperty, IDProperty, IntegerProperty,
@@ -60,6 +61,12 @@ class Relationship(_RelationshipObject):
 
     def _check_object_constraints(self):
         super(self.__class__, self)._check_object_constraints()
+
+        if not re.match(r"^[a-z0-9-]+\Z", self.get('relationship_type', '')):
+            raise ValueError(
+                "'relationship_type' must only contain the characters a-z "
+                "(lowercase ASCII), 0-9, and hyphen (-).",
+            )
 
         start_time = self.get('start_time')
         stop_time = self.get('stop_time')
